@@ -463,6 +463,62 @@ func ruleR23(p *Prog) []Ob {
 					ob.Status, ob.Msg = Discharged, "after a round that deleted something every return is preceded by adding its messages (and size) to the driver's result"
 				}
 				obs = append(obs, ob)
+				// (b) and nothing more: what the driver reports is never made from the set it was asked
+				// to delete (an offset in it may have been gone before the call)
+				{
+					ob := Ob{Rule: "R23", Inst: "b:reports-only-what-rounds-reported:" + funcLabel(fn), Props: []string{"C12"}, Pos: p.at(c), Func: funcLabel(fn), Nontrivial: true}
+					var asked []ssa.Value
+					for _, pr := range fn.Params {
+						if isOffsetSet(pr.Type()) {
+							asked = append(asked, pr)
+						}
+					}
+					var bad []string
+					for _, rt := range returnsOf(fn) {
+						v := returnOperand(rt, 0)
+						seen := map[ssa.Value]bool{}
+						var from func(v ssa.Value, d int) bool
+						from = func(v ssa.Value, d int) bool {
+							if v == nil || seen[v] || d > 6 {
+								return false
+							}
+							seen[v] = true
+							for _, a := range asked {
+								if v == a {
+									return true
+								}
+							}
+							switch x := v.(type) {
+							case *ssa.Phi:
+								for _, e := range x.Edges {
+									if from(e, d+1) {
+										return true
+									}
+								}
+							case *ssa.Call:
+								for _, a := range x.Call.Args {
+									if from(a, d+1) {
+										return true
+									}
+								}
+							case *ssa.ChangeType:
+								return from(x.X, d+1)
+							case *ssa.MakeInterface:
+								return from(x.X, d+1)
+							}
+							return false
+						}
+						if from(v, 0) {
+							bad = append(bad, p.at(rt)+": the driver reports (a copy of) the set it was asked to delete")
+						}
+					}
+					if len(bad) > 0 {
+						ob.Status, ob.Msg, ob.Path = Violated, "the multi-round driver can report offsets as deleted that no round of Log.Delete reported (they were gone before the call)", uniqStrings(bad)
+					} else {
+						ob.Status, ob.Msg = Discharged, "no return hands back the caller's own set or something computed from it"
+					}
+					obs = append(obs, ob)
+				}
 			}
 		}
 	}
